@@ -10,16 +10,28 @@ open Arp
 theorem powiLoop_zero (fuel : Nat) (e v : Flt) : powiLoop fuel 0 e v = e := by
   cases fuel <;> simp [powiLoop]
 
+/-- the internal format of `powi`: two more significand bits; the intermediate products are
+    rounded to nearest (ties-away if that is the format's mode, ties-even otherwise) -/
+def powiSem (F : Sem) : Sem := (F.increasePrecision 2).withRm (powiInnerRm F.rm)
+
+theorem powi_def (x : Flt) (n : Nat) :
+    x.powi n = (powiLoop 64 n (Flt.one (powiSem x.sem) false) (x.cast (powiSem x.sem))).castWithRm
+      x.sem x.sem.rm := rfl
+
+theorem powiSem_WF {F : Sem} (hF : F.WF) : (powiSem F).WF :=
+  Sem.withRm_WF (Sem.increasePrecision_WF hF 2) _
+
 /-- `x^0` is `1.0` of the internal (p+2)-bit format cast back — for EVERY `x`, NaN and
     infinities included (the loop body is never entered). -/
 theorem powi_zero (x : Flt) :
-    x.powi 0 = (Flt.one (x.sem.increasePrecision 2) false).cast x.sem := by
-  unfold Flt.powi; simp only [powiLoop_zero]
+    x.powi 0 = (Flt.one ((x.sem.increasePrecision 2).withRm (powiInnerRm x.sem.rm)) false).castWithRm
+      x.sem x.sem.rm := by
+  rw [powi_def]; simp only [powiLoop_zero]; rfl
 
 /-- … which is exactly `1.0` in every well-formed format -/
 theorem powi_zero_eq_one (x : Flt) (hF : x.sem.WF) : x.powi 0 = Flt.one x.sem false := by
   rw [powi_zero]
-  exact C16.cast_one _ _ false _ (Sem.increasePrecision_WF hF 2) hF
+  exact C16.cast_one _ _ false _ (powiSem_WF hF) hF
 
 /-- `1.0 · y = y` exactly, in every mode (canonical `y` of the same format, special values included) -/
 theorem one_mul (G : Sem) (y : Flt) (rm : RM) (hG : G.WF) (hs : y.sem = G) (hy : y.Canonical) :
@@ -44,18 +56,18 @@ theorem one_mul (G : Sem) (y : Flt) (rm : RM) (hG : G.WF) (hs : y.sem = G) (hy :
 
 /-- `x^1 = x` exactly, for every canonical `x` (special values included), every mode. -/
 theorem powi_one (x : Flt) (hF : x.sem.WF) (hx : x.Canonical) : x.powi 1 = x := by
-  have hW := Sem.increasePrecision_WF hF 2
+  have hW := powiSem_WF hF
   have hc := cast_canonical x _ hW hx
   have hl : ∀ e v : Flt, powiLoop 64 1 e v = e.mul v := by
     intro e v
     rw [show (64 : Nat) = 63 + 1 from rfl]
     simp only [powiLoop, Nat.one_ne_zero, if_false, Nat.one_mod, if_true, Nat.reduceDiv]
-  unfold Flt.powi
+  rw [powi_def]
   simp only [hl]
   unfold Flt.mul
   rw [one_mul _ _ _ hW hc.2 hc.1]
-  exact C06.widen_narrow_id x (x.sem.increasePrecision 2) _ _ (le_refl _)
-    (by simp [Sem.increasePrecision]) hF hW hx
+  exact C06.widen_narrow_id x (powiSem x.sem) _ _ (le_refl _)
+    (by simp [powiSem, Sem.increasePrecision, Sem.withRm]) hF hW hx
 
 /-! ### `pow` -/
 
